@@ -87,6 +87,43 @@ class PlainCanary(Canary):
     __getitem__ = None
 
 
+@__import__('dataclasses').dataclass(eq=False, repr=False)
+class DataCanary(PlainCanary):
+    """a non-yaqlized host object whose class is a dataclass: its fields are as unreachable as any attribute"""
+    secret: str = MARKER + '-attr'
+    _hidden: str = MARKER + '-hidden'
+    label: str = MARKER + '-field'
+
+    def __post_init__(self):
+        pass
+
+
+class RecordCanary(PlainCanary):
+    """a non-yaqlized host object that looks like a record (_fields / _asdict / keys / items / to_dict / __slots__-like
+    helpers) without being a tuple or a Mapping"""
+    _fields = ('secret', 'label')
+
+    def _asdict(self):
+        LOG.calls.append(('_asdict', hooks.yaql_site(2)))
+        return {'secret': MARKER + '-asdict'}
+
+    def keys(self):
+        LOG.calls.append(('keys', hooks.yaql_site(2)))
+        return ['secret']
+
+    def items(self):
+        LOG.calls.append(('items', hooks.yaql_site(2)))
+        return [('secret', MARKER + '-items')]
+
+    def to_dict(self):
+        LOG.calls.append(('to_dict', hooks.yaql_site(2)))
+        return {'secret': MARKER + '-to_dict'}
+    __json__ = to_dict
+
+
+SHAPED = (DataCanary, RecordCanary)
+
+
 def _proto(name, result):
     def method(self, *a, **kw):
         LOG.protocol.append((name, hooks.yaql_site(2)))
@@ -448,7 +485,9 @@ def policy_check(mon, cfg, form, name, rec):
 
 # ---- workloads ---------------------------------------------------------------------------------------
 
-ATTACK_STRINGS = ['{0.secret}', '%(secret)s', '__class__', '__dict__', 'secret', '_hidden', '{0.__class__}', '%s']
+ATTACK_STRINGS = ['{0.secret}', '%(secret)s', '__class__', '__dict__', '{0:{0.secret}}', '{0:{1.secret}}', '{1:{0.secret}}{0}', '{0[secret]}',
+                  '{0!r:{0.secret}}', 'secret', '_hidden', '{0.__class__}', '%s']
+N_POSITION_ATTACKS = 9
 
 DIRECT_FORMS = [
     '$c.secret', '$c.reveal()', '$c?.secret', '$c?.reveal()', '$c[secret]', "$c['__class__']", '$c._hidden',
@@ -520,7 +559,7 @@ def _positions(spec, mon, rec):
             continue
         rec.count('names.' + o.name)
         for canary_cls in (Canary, PlainCanary, ProtoCanary):
-            for attack in (None,) + tuple(ATTACK_STRINGS[:4] if canary_cls is Canary else ()):
+            for attack in (None,) + tuple(ATTACK_STRINGS[:N_POSITION_ATTACKS] if canary_cls is Canary else ()):
                 args = list(base)
                 args[i] = cat.var(cat.Fresh(canary_cls, 'CANARY'))
                 if attack is not None:
@@ -559,7 +598,7 @@ def _positions(spec, mon, rec):
 
 def _direct(spec, mon, rec):
     for text in DIRECT_FORMS:
-        for cls in (Canary, PlainCanary):
+        for cls in (Canary, PlainCanary) + SHAPED:
             for eng, ename in ((mon.eng, 'default'), (mon.eng_deleg, 'delegate-syntax')):
                 c = cls()
                 out = mon.run(text, {'c': c}, eng)   # warm parse; judged below
@@ -567,8 +606,10 @@ def _direct(spec, mon, rec):
                                 replay={'kind': 'direct', 'text': text, 'cls': cls.__name__, 'engine': ename})
     # data passed as `$`
     for text in ('$.secret', '$.reveal()', '$[secret]', '$', '[$]', 'str($)', '$.c.secret', '$.c', '$.values().secret',
-                 '$.values().select($.secret)'):
-        for cls in (Canary, PlainCanary):
+                 '$.values().select($.secret)', '$.label', '$.c.label', '$.get(secret)', '$.c.get(_hidden)', '$.c.values()',
+                 '$.c.keys()', '$.c.items()', '$.c[secret]', 'dict($.c)', 'list($.c)', '$.c.len()', '$.c.toList()',
+                 '[$.c].select($.label)', '$.c = $.c', '{a => $.c}', '[$.c, 1]', '$.c.containsKey(secret)', '$.c.secret'):
+        for cls in (Canary, PlainCanary) + SHAPED:
             for data in (cls(), {'c': cls()}, [cls()]):
                 st = mon.eng(text)
                 LOG.reset()
